@@ -74,6 +74,8 @@ def date_values(quick):
     return sorted(s)
 
 
+NEEDLE_SUPPORTED = {"%Y", "%y", "%_y", "%G", "%g", "%m", "%-m", "% m", "%mth", "%b", "%B", "%_b", "%d", "%-d", "%dth", "%j", "%-j", "%jth", "%a", "%A", "%_a", "%u", "%w",
+                    "%c", "%cth", "%V", "%U", "%W", "%C", "%F", "%0m", "%rY", "%h", "%D", "% d", "%-c", "%-V"}
 FIXED_FIRST = {"%Y", "%G", "%rY", "%y", "%g", "%m", "%0m", "%d", "%j", "%D", "%w", "%c", "%V", "%U", "%W", "%C", "%F", "%H", "%I", "%M", "%S", "%T"}
 TIMES_Q = ["00:00:00", "00:00:01", "09:05:07", "11:59:59", "12:00:00", "12:00:01", "13:00:00", "23:59:59", "00:59:59", "12:59:59"]
 NS = [0, 1, 123456789, 999999999, 100000000, 10]
@@ -369,6 +371,60 @@ def main(tier):
             nval, rej, st = core.validate_batches("FormatTrace", "FormatTrace.cfg", [[{"e": "Reset"}, e] for e in lib_events[400:][:5]], max_reject=10)
             if nval:
                 raise core.MachineryError("FormatTrace accepted a round trip the driver reported as failed")
+        # ---- the line scanner's needle windows (Needle.tla): model-checked, conformance of calc_grep_atom, values found inside lines
+        r = core.tlc_must_pass("Needle", "Needle.cfg", workers=16, timeout=1200, heap="8g")
+        rep.add_tlc("Needle (Covers: the true start of a value is inside the window the scanner tries)", r)
+        nf = [j for j in (core.parse_print(x) for x in r.prints) if j and "ndl" in j]
+        r.prints = []
+        for cfgname, what in (("NeedlePinned.cfg", "pinned %F/%T offsets"), ("NeedleAll.cfg", "unsupported tokens in front of the needle")):
+            o = core.tlc("Needle", cfgname, workers=4, keep_prints=False)
+            if "Covers" not in o.violated:
+                raise core.MachineryError("negative control failed: %s does not violate Covers" % cfgname)
+        rep.notes["needle_controls"] = "NeedlePinned.cfg and NeedleAll.cfg violate Covers as required"
+        ndrv = b.driver("drv_needle", link_lib=True, extra_flags=os.path.join(b.src, "libdutio.a"))
+        rng.shuffle(nf)
+        nsel = nf[: 9000 if quick else 60000]
+        pn = subprocess.run([ndrv], input=("\n".join(fstr(f) for f in nsel) + "\n").encode(), stdout=subprocess.PIPE, stderr=subprocess.PIPE, env=env, timeout=600)
+        nouts = pn.stdout.decode("utf-8", "replace").split("\n")
+        nexecs = []
+        for f, o_ in zip(nsel, nouts):
+            try:
+                j = json.loads(o_)
+            except ValueError:
+                j = {"ndl": "?", "omin": 0, "omax": 0}
+            nexecs.append([{"e": "Reset"}, {"e": "Atom", "t": f["t"], "s": f["s"], "ndl": "nl" if j["ndl"] == "\x01" else j["ndl"], "omin": j["omin"], "omax": j["omax"],
+                                            "fmt": fstr(f)}])
+        cc.validate_and_report(rep, "NeedleTrace", "NeedleTrace.cfg", nexecs, lambda bad, ex: "needle window of calc_grep_atom differs from Needle.tla", "needle_atom")
+        # values inside lines: dconv -S -i FMT must find and convert the value wherever Covers holds and the format is complete
+        # (a day-of-month field accepts blanks in front of it by design -- test/dconv.133 -- so a format starting with one takes the separating
+        # blank for part of the value: such formats are not used here)
+        inline = [f for f in fm if f["k"] == "d" and any(x != "" for x in f["s"]) and all(t in NEEDLE_SUPPORTED for t in f["t"]) and f["win"] == "all" and not f["biz"]
+                  and f["t"][0] not in ("%d", "%dth", "%-d", "% d")]
+        rng.shuffle(inline)
+        inline = inline[: 150 if quick else 1500]
+
+        def inline_rt(f):
+            fs = fstr(f)
+            res = []
+            for d in (datetime.date(2012, 3, 6), datetime.date(2003, 11, 14)):
+                p1 = core.run([dconv, "-f", fs, d.isoformat()], timeout=20, env={"LOCALE_FILE": locfile})
+                text = p1.stdout.rstrip("\n")
+                line = "zz " + text + " yy"
+                p2 = core.run([dconv, "-S", "-i", fs, "-f", "%F"], timeout=20, env={"LOCALE_FILE": locfile}, inp=line + "\n")
+                got = p2.stdout.rstrip("\n")
+                ok = got == "zz " + d.isoformat() + " yy"
+                res.append({"e": "Round", "t": f["t"], "s": f["s"], "k": "d", "text": line[:80], "len": len(text) or 1, "used": len(text) if ok else 0, "v": d.isoformat(),
+                            "p": d.isoformat() if ok else got[:60], "src": "dconv-inline", "fmt": fs})
+            return res
+        iev = []
+        with ThreadPoolExecutor(max_workers=core.NCPU) as ex:
+            for evs in ex.map(inline_rt, inline):
+                iev += evs
+        ib = collections.Counter(t for e in iev if e["p"] != e["v"] for t in set(e["t"]))
+        it = collections.Counter(t for e in iev for t in set(e["t"]))
+        cc.validate_and_report(rep, "FormatTrace", "FormatTrace.cfg", [[{"e": "Reset"}, e] for e in iev],
+                               lambda bad, ex: "value inside a line not found by dconv -S: token %s" % (max(set(bad.get("t", ["?"])), key=lambda t: (ib[t] / max(1, it[t]), t))),
+                               "inline_value")
         rep.cov["rule"] = ("one case = one (format, value, held representation) round trip dt_strfdt -> dt_strpdt; formats = every complete and unambiguous "
                            "sequence of <= 3 tokens over all 43 date tokens, <= 4 over 20 (ymcw), <= 5 time tokens, <= 4|6 date-time tokens, 3|6 separators "
                            "(incl. adjacency); values = 4|10 days around new year for all 14 year types, leap days, a day per month, far years, 10 clock "
